@@ -13,7 +13,7 @@ CHECKS = {
    "DESIGN.md §3 C04"),
  "C05": ("E-SEQ", "exploration",
    "bounded-exhaustive small-scope enumeration of byte strings and API call sequences, differential against an independent reference codec",
-   "All word sequences up to length 5 (thorough 6) over a 23-word alphabet chosen to hit every guard, all short byte strings, every single (thorough: double) header-word deviation of 11 valid corpus messages up to 64 KiB, every truncation; all 2^18 tag subsets x value-length patterns through the API. Oracle: accept iff the reference codec accepts, identical content, identical re-encoding, exact framing.",
+   "All word sequences up to length 5 (thorough 6) over a 26-word alphabet chosen to hit every guard (incl. near-spellings of known tags), all short byte strings, every single (thorough: double) header-word deviation and every tag-byte mutation of 11 valid corpus messages up to 64 KiB, every truncation; all 2^18 tag subsets x value-length patterns through the API. Oracle: accept iff the reference codec accepts (a panic is neither), identical content, identical re-encoding, exact framing.",
    "Trusted: rtref::codec (written from the format description). Values are aligned fillers, not arbitrary bytes; value bytes do not influence the codec's control flow.",
    "DESIGN.md §3 C05"),
  "C06": ("E-SEQ", "exploration",
@@ -23,22 +23,22 @@ CHECKS = {
    "DESIGN.md §3 C06"),
  "C02": ("E-STATE", "model_checking",
    "explicit event-history exploration of real in-process Server objects; every emitted reply judged by an independent reference verifier",
-   "Histories (sequences of bursts: k requests, protocol mix, size, SRV) are executed on real Server objects via process_events; every reply must pass rtref::authentic (framing, both signatures under the version's contexts, window, Merkle path with the protocol's node width and leaf definition, echoed nonce, VER/VERS) and batch consistency (INDX set, PATH length, batch <= batch_size). Quick: batch_size {1,2,3,7,64} x k in 12 sizes x mixes x 3 sizes x SRV, burst pairs; thorough: every batch_size 1..=64 x every k 1..=65,128, every aligned size, burst triples. The fault-rate sub-claim is statistical (6 sigma) and labelled sampled.",
+   "Histories (sequences of bursts: k requests, protocol mix, size, SRV) are executed on real Server objects via process_events; every reply must pass rtref::authentic (framing, both signatures under the version's contexts, window, Merkle path with the protocol's node width and leaf definition, echoed nonce, VER/VERS) and batch consistency (INDX set, PATH length, batch <= batch_size). Quick: 16 batch sizes x 15 burst sizes up to 128 x mixes x 3 sizes x SRV, burst pairs; thorough: every batch_size 1..=64 x every k 1..=65,128, every aligned size, burst triples. The fault-rate sub-claim is statistical (6 sigma) and labelled sampled.",
    "Trusted: rtref verifier, sha2, ed25519-dalek. Kernel loopback delivery is synchronous (self-tested). Nonce bytes are a deterministic family, not all values.",
    "DESIGN.md §3 C02"),
  "C07": ("E-STATE", "model_checking",
    "exhaustive enumeration of a structured datagram space, each datagram one history on a real in-process Server, judged by a 3-valued reference classifier",
-   "Every datagram of the space (every length of the tier's length set x 5 templates, every aligned nonce length 0..=1484 x 2 sizes x 2 protocols, every frame-length deviation, field mutants, full batches at maximum path depth) is sent to a real Server; the reply set must agree with a classifier written from the statement (must/may/must-not), every reply must be authentic and never longer than the request; a sentinel request proves the worker survived.",
+   "Every datagram of the space (every length of the tier's length set x 5 templates, every aligned nonce length 0..=1484 x 2 sizes x 2 protocols, every frame-length deviation, field mutants, framed requests with every VER list of length <= 3 over {draft-13, classic 0, unknown}, full batches at maximum path depth) is sent to a real Server; the reply set must agree with a classifier written from the statement (must/may/must-not), every reply must be authentic and never longer than the request; a sentinel request proves the worker survived.",
    "Trusted: rtref classifier/verifier. Random-byte family uses one fixed seeded pool (prefixes), not all byte strings.",
    "DESIGN.md §3 C07"),
  "C08": ("E-STATE", "model_checking",
-   "bounded-exhaustive enumeration of datagram sequences (depth 2, thorough 3) over a 15-class alphabet x log level x fault x batch size on real in-process Servers",
-   "All sequences up to the depth bound, each run two ways (step per datagram / all queued first), at every log level Off..Trace with a logger that formats every enabled record, fault_percentage {0,50}, batch_size {1,2,64}; process_events must never unwind and two sentinels (one per protocol) must be answered afterwards. Failing histories are minimised.",
+   "bounded-exhaustive enumeration of datagram-class sequences (depth 2, thorough 3) over a 19-class alphabet x log level x fault x batch size on real in-process Servers, with a wedge watchdog",
+   "All sequences up to the depth bound over 15 single-datagram classes and 4 classes of 2/3 valid requests arriving together, each run two ways (step per class / all queued first), at every log level Off..Trace with a logger that formats every enabled record, fault_percentage {0,50}, batch_size {1,2,64}; process_events must never unwind nor fail to return (60 s watchdog), and afterwards a pair of valid requests of each protocol queued together plus one of each alone must be answered. Failing histories are minimised.",
    "Log level is process-global, so levels are explored sequentially. The alphabet has one representative per guard in the anchors, not all byte strings.",
    "DESIGN.md §3 C08"),
  "C09": ("E-STATE", "model_checking",
-   "stateless enumeration of all event sequences up to depth 5 (thorough 7) over {C0,C1,I0,I1,X0,step} x batch_size {1,2,3} on real in-process Servers, plus differential prefix/fresh and parametric bursts for batch sizes up to 64",
-   "Every history is completed to quiescence; per socket the received datagrams must be exactly one authentic reply per accepted request sent from that socket (bound to the exact request bytes by the reference verifier), none for rejected datagrams, from the server's address, in the request's protocol. A nonce pool forces identical requests from different sockets and repeats on one socket. Differential: each suffix after three prefixes vs on a fresh server.",
+   "stateless enumeration of all event sequences up to depth 5 (thorough 7) over {C0,C1,I0,I1,X0,step} x batch_size {1,2,3} on real in-process Servers, mid-step arrival injection at hook points, differential prefix/fresh, parametric bursts beyond one event-loop call",
+   "Every history is completed to quiescence; per socket the received datagrams must be exactly one authentic reply per accepted request sent from that socket (bound to the exact request bytes by the reference verifier), none for rejected datagrams (four rotating kinds incl. over-long with a well-formed prefix), from the server's address, in the request's protocol. A nonce pool forces identical requests from different sockets, immediate retransmissions and repeats. Requests arriving inside a step at the polled/collected/sent points; bursts of 16b..32b+1 requests; differential: each suffix after three prefixes vs on a fresh server.",
    "Trusted: rtref verifier; loopback synchronous delivery (self-tested). State hashing is used for the states count only (no merging).",
    "DESIGN.md §3 C09"),
  "C12": ("E-STATE", "model_checking",
@@ -58,7 +58,7 @@ CHECKS = {
    "DESIGN.md §3 C14"),
  "C01": ("E-PROC", "exploration",
    "deviation-bounded exhaustive enumeration of adversarial peer answers (tamper alphabet incl. every single bit of the reply) against the real client process, judged by an independent reference verifier",
-   "Each case is one execution of the real roughenough-client with a pinned key against a harness responder that builds the honest reply for the request actually received and applies one tamper operator: every bit of the datagram, field substitutions without re-signing, chains re-signed by another key, properly signed windows excluding MIDP, cross-protocol and cross-request splices, replays, truncations/extensions; -n 2/3 with all assignment functions. Violation iff the client exits 0 with a time while rtref::authentic rejects.",
+   "Each case is one execution of the real roughenough-client with a pinned key against a harness responder that builds the honest reply for the request actually received and applies one tamper operator: every bit of the datagram, field substitutions without re-signing, genuine signature values reused in the other role, chains re-signed by another key, replies properly signed by the pinned key whose window excludes MIDP or whose ROOT is not a full node or belongs to another batch, cross-protocol and cross-request splices, replays, truncations/extensions; -n 2/3 with all assignment functions; every structured operator on the second reply after an honest first one. Violation iff the client exits 0 with a time while rtref::authentic rejects; plus a nonce-freshness oracle over all requests of all runs.",
    "Trusted: rtref verifier/responder. 1 deviation per reply (0 = honest baseline, recorded per version so a vacuous half is visible). Signature values are not enumerated beyond the alphabet.",
    "DESIGN.md §3 C01"),
  "C03": ("E-PROC", "exploration",
@@ -73,37 +73,37 @@ CHECKS = {
    "DESIGN.md §3 C10"),
  "C11": ("E-SEQ+E-STATE", "exploration",
    "exhaustive clock grid through make_srep(clock) plus every reply of bounded event histories bracketed by the harness clock",
-   "Grid of 12 second values x 10 sub-second values (thorough: + every second of a leap day) x 2 versions: MIDP == floor(clock/unit), RADI == 5 s in unit, signature valid, ROOT echoed; live: every authentic reply of all C09 histories of depth 4 (thorough 5) has its midpoint inside the bracket of harness clock readings and the true signing time within midpoint +/- radius.",
+   "Grid of 12 second values x 10 sub-second values (thorough: + every second of a leap day) x 2 versions: MIDP == floor(clock/unit), RADI == 5 s in unit, signature valid, ROOT echoed; live: every authentic reply of all C09 histories of depth 4 (thorough 5) has its midpoint inside a per-reply bracket of harness clock readings (request sent .. reply drained) and the true signing time within midpoint +/- radius.",
    "The clock is an owned input only at the make_srep seam; live replies use the system clock (bracketed).",
    "DESIGN.md §3 C11"),
  "C17": ("E-STATE", "model_checking",
    "explicit-state exploration of the real recorders: all operation sequences up to length 4 (thorough 5) over 25 operations with a step oracle; all hand-off/merge histories of 4 (5) events through the real queue and Reporter against a model; C09 histories for the Server wiring",
-   "After every operation exactly one of {own counter +1 (bytes + arg), overflow +1} happened, tracked <= limit, every getter equals the sum over rows, aggregated == per-client totals while no overflow; reporter per-address sums equal the sums of the snapshots it popped (model queue drops the oldest when full); a Server's recorded totals equal the datagrams actually sent and received.",
+   "After every operation exactly one of {own counter +1 (bytes + arg), overflow +1} happened, tracked <= limit, every getter equals the sum over rows, aggregated == per-client totals while no overflow; reporter per-address sums equal the sums of the snapshots it popped (model queue drops the oldest when full); a Server's recorded totals equal the datagrams actually sent and received; hand-off events beyond the queue capacity must return (wedge watchdog).",
    "The recorder's canonical state is (rows, overflow); states are genuinely deduplicated for the count. One Reporter is reused per chunk of merge histories (cumulative model).",
    "DESIGN.md §3 C17"),
  "C15": ("E-PROC+E-STATE+E-SCHED", "model_checking",
    "exhaustive configuration product on the real binary (quick: all-pairs covering array), exhaustive health-check event histories on a real in-process Server, start-up schedules under a controlled scheduler",
-   "Every grid point starts the real server: alive, thread names worker-0..N-1, N distinct delegated keys answer authentic replies (so every worker serves), the health port returns the fixed bytes, no panic text; example.cfg verbatim. All sequences up to length 5 (thorough 6) over {connect_tcp, send, step} in-process: every accepted TCP connection served and closed, every request answered.",
+   "Every grid point starts the real server: alive, thread names worker-0..N-1, N distinct delegated keys answer authentic replies before and (batch_size <= 2) after bursts that queue 16*batch_size+8 requests on single workers, the health port returns the fixed bytes, no panic text; example.cfg verbatim. All sequences up to length 5 (thorough 6) over {connect_tcp, send, step} in-process plus connection bursts up to 100: every accepted TCP connection served and closed. All start-up interleavings for N<=2 under the controlled scheduler; TLA+ lifecycle model replayed transition by transition.",
    "Quick tier covers all pairs of factor values, not the full product (thorough does). Worker coverage through SO_REUSEPORT relies on 48N+32 client sockets hitting all N sockets.",
    "DESIGN.md §3 C15"),
  "C16": ("E-PROC", "exploration",
    "exhaustive boundary grid of (key,value) deviations from a valid base through the real make_config/is_valid_config (probe process) and the real server binary, file and ENV, against reference configuration semantics",
-   "Every grid point as one deviation (thorough: all pairs over numeric keys): refused, or accepted with every getter equal to the written value; in-range must be accepted; out-of-range, missing, unknown must be refused; file and ENV agree; the real binary refuses what the probe refuses and displays the probe's values.",
+   "Every grid point as one deviation from each of two valid bases (thorough: all pairs over numeric keys): refused, or accepted with every getter equal to the written value; in-range must be accepted; out-of-range, missing, unknown must be refused; file and ENV agree; the real binary refuses what the probe refuses and displays the probe's values; observed behaviour: a Server built through the real file configuration path answers 2b+1 queued requests in batches {b,b,1}.",
    "Reference semantics of the documented keys are part of the harness (README table + ServerConfig docs). status_interval outside 1..=65535 and a few undocumented corners are 'either'.",
    "DESIGN.md §3 C16"),
  "C20": ("E-STATE+E-PROC", "model_checking",
    "every execution of bounded event-history spaces (C09 histories, seed alphabet x log levels, datagram class pairs) and real-binary runs is scanned for the seed/scalar/expanded key in six encodings",
-   "All log records at every level Off..Trace (capturing logger), every datagram received, stdout/stderr of real server runs from file and ENV sources (accepted and refused configurations) are searched for the seed, the Ed25519 private scalar and the expanded key halves in raw, hex, HEX, base64, base64url and Debug-list form; a planted-seed self-test guards against a blind scanner.",
+   "All log records at every level Off..Trace (capturing logger), every datagram received, stdout/stderr of hundreds of real server runs from file and ENV sources (accepted and refused configurations, every point of the configuration grid on three bases, digit-only seeds) are searched for the seed, the Ed25519 private scalar and the expanded key halves in raw, hex, HEX, base64, base64url and Debug-list form; a planted-seed self-test guards against a blind scanner.",
    "Seeds are a structured alphabet. Secrets at a shifted alignment inside a larger base64 blob are not searched for.",
    "DESIGN.md §3 C20"),
  "C18": ("E-STATE+E-SCHED", "model_checking",
    "stateless model checking of the real server process under a controlled scheduler (hook points, iterative preemption bounding) plus exhaustive in-process multi-Server delivery/step histories",
-   "In-process: all sequences of depth 6 (thorough 8) over deliver(w)/step(w) for W=2 (thorough also W=3) real Servers from one seed. Controlled: N=2 workers, K=2 requests (thorough: N,K in {2,3}, every distribution realised through the learned SO_REUSEPORT port->worker map), all interleavings of worker batch steps and environment sends up to preemption bound 2 (thorough 3). Oracle: one authentic reply per request from the worker it was delivered to under the single long-term key, stable distinct delegated keys, no thread exit/panic, all workers idle at the end.",
+   "In-process: all sequences of depth 6 (thorough 8) over deliver(w)/step(w) for W=2 (thorough also W=3) real Servers from one seed, plus bursts larger than one event-loop call spread over the workers. Controlled: N=2 workers, K=2 requests (thorough: N,K in {2,3}, every distribution up to worker symmetry realised through the learned SO_REUSEPORT port->worker map), all interleavings of per-datagram / per-reply / per-batch steps and environment sends up to preemption bound 2 (thorough 3). Oracle: one authentic reply per request from the worker it was delivered to under the single long-term key, stable distinct delegated keys, no thread exit/panic, all workers idle at the end. Static audit of sharing constructs; sampled free-running stress.",
    "Interleavings at hook granularity; weak-memory effects not modelled; the thorough tier's 16-worker closed-loop run is sampled conformance evidence.",
    "DESIGN.md §3 C18"),
  "C19": ("E-SCHED", "model_checking",
-   "stateless model checking of the real server process under a controlled scheduler with the signal as an environment actor at every position; adversarial flood lasso; sampled wall-clock runs",
-   "N in {1,2} workers (thorough up to 4), client_stats off/on, K requests, SIGINT/SIGTERM placed at every program position and interleaved at every hook point up to the preemption bound: the process must exit 0 within the horizon under the fair continuation (no deadlock, no livelock, no panic text) and every reply received must be authentic. Flood lasso: with the socket refilled at every batch boundary after the flag is stored the worker must still reach the flag check.",
+   "stateless model checking of the real server process under a controlled scheduler with the signal as an environment actor; TLA+ lifecycle model checked by TLC (invariants + termination under fairness) with every transition replayed against the process; adversarial flood lasso; sampled wall-clock runs",
+   "One worker: all interleavings; two workers: preemption-bounded (thorough up to 4 workers), client_stats off/on, K requests, SIGINT/SIGTERM at every program position and every hook point: the process must exit 0 within the horizon under the fair continuation (no deadlock, livelock, panic text), every reply received authentic. TLA+ model of main/workers/reporter/signal: TLC invariants and liveness, transition cover replayed comparing enabled actors and program counters. Flood lasso: socket refilled with valid/rejected/mixed datagrams before every step after the flag is stored; the worker must still reach the flag check.",
    "'A few seconds' is decided in steps; wall-clock runs (idle, closed-loop, --stress flood) are sampled conformance evidence. Signal delivery is treated as one atomic environment action.",
    "DESIGN.md §3 C19"),
 }
